@@ -71,6 +71,20 @@ func (g *Gen) checkUnchanged(api, kind string, k int, b1, b2 []types.Transaction
 	}
 }
 
+// checkInvalidRefused: a set in which the harness broke a signature is invalid whatever the pool
+// knows about the ids of its members (an id does not commit to signatures): the answer is an error.
+func (g *Gen) checkInvalidRefused(api, kind string, k int, oks []bool, res string) {
+	broken := false
+	for _, ok := range oks {
+		if !ok {
+			broken = true
+		}
+	}
+	if broken && res != "err" && res != "panic" && res != "skipped" {
+		g.W.C.Oracle(api+"-accepts-invalid-set-"+kind, "%s answered %s for a set whose transaction at position %d carries a broken signature", api, res, k)
+	}
+}
+
 func (g *Gen) CheckAtomic(api string, kind string, k int, before map[types.TransactionID]bool, set []types.TransactionID, res string, standaloneValid bool) {
 	w := g.W
 	after := w.PoolIDs()
@@ -189,6 +203,7 @@ func (g *Gen) AddV2(basis int, txns []types.V2Transaction, oks []bool, kind stri
 		}
 	}
 	w.Refresh()
+	g.checkInvalidRefused("addv2pooltransactions", kind, k, oks, res)
 	g.checkUnchanged("addv2pooltransactions", kind, k, b1, b2, res)
 	g.CheckAtomic("addv2pooltransactions", kind, k, before, ids2(txns), res, standalone)
 	if g.Track != nil {
@@ -206,6 +221,7 @@ func (g *Gen) AddV1(txns []types.Transaction, oks []bool, kind string, k int, st
 	b1, b2 := g.orderedIDs()
 	res := w.AddV1(append([]types.Transaction(nil), txns...), oks)
 	w.Refresh()
+	g.checkInvalidRefused("addpooltransactions", kind, k, oks, res)
 	g.checkUnchanged("addpooltransactions", kind, k, b1, b2, res)
 	g.CheckAtomic("addpooltransactions", kind, k, before, ids1(txns), res, standalone)
 	if g.Track != nil {
@@ -488,6 +504,102 @@ func (g *Gen) Parents() string {
 	}
 }
 
+// firstCallConflict: a block confirms a proper prefix of the pool (so the re-validation will shorten
+// the slices) and the FIRST pool call afterwards is a submission [new, new?, conflicting], whose
+// last member double-spends an input of a transaction that is still pooled.  It must fail and leave
+// none of its members behind, and it must not panic.
+func (g *Gen) firstCallConflict(prev1 []types.Transaction, prev2 []types.V2Transaction) string {
+	w, rng := g.W, g.Rng
+	useV1 := len(prev1) >= 2 && w.V1Allowed() && (len(prev2) < 2 || rng.Bool())
+	if !useV1 && (len(prev2) < 2 || !w.V2Allowed() || len(prev1) > 0) {
+		// the v2 variant confirms v2 transactions only, which needs an empty v1 slice (a block takes all of v1 first)
+		if !(len(prev2) >= 2 && w.V2Allowed() && len(prev1) == 0) {
+			return ""
+		}
+	}
+	oldTip := w.TipID()
+	if useV1 {
+		victim := prev1[len(prev1)-1]
+		if len(victim.SiacoinInputs) == 0 {
+			return ""
+		}
+		el, ok := w.Led.SC[victim.SiacoinInputs[0].ParentID]
+		if !ok {
+			return "" // an unconfirmed input: the set would not be valid on the tip
+		}
+		if _, err := w.GrowFromPool(1+rng.Intn(len(prev1)-1), 0); err != nil || w.TipID() == oldTip {
+			w.Refresh()
+			return "skip"
+		}
+		cs := w.Node.CM.TipState()
+		// new members: coins nobody in the old pool spent
+		spent := map[types.SiacoinOutputID]bool{}
+		for _, t := range prev1 {
+			for _, in := range t.SiacoinInputs {
+				spent[in.ParentID] = true
+			}
+		}
+		for _, t := range prev2 {
+			for _, in := range t.SiacoinInputs {
+				spent[in.Parent.ID] = true
+			}
+		}
+		var set []types.Transaction
+		for _, c := range w.CoinsOf(w.Led, w.Node.CM.Tip().Height+1) {
+			if !spent[c.ID] && c.Value.Cmp(types.Siacoins(3)) >= 0 && len(set) < 1+rng.Intn(2) {
+				set = append(set, w.SpendV1(cs, []Coin{c}, 1, g.Fee(), 0))
+			}
+		}
+		if len(set) == 0 {
+			w.Refresh()
+			return "skip"
+		}
+		set = append(set, w.SpendV1(cs, []Coin{{ID: el.ID, Value: el.SiacoinOutput.Value}}, 2, g.Fee(), 0))
+		g.LooseKnown = true
+		g.AddV1(set, nil, "first-call-pool-conflict", len(set)-1, false)
+		g.LooseKnown = false
+		w.Stats["first-call:add1-conflict"]++
+		return "first-call-add1-conflict"
+	}
+	victim := prev2[len(prev2)-1]
+	if len(victim.SiacoinInputs) == 0 || victim.SiacoinInputs[0].Parent.StateElement.LeafIndex == types.UnassignedLeafIndex {
+		return ""
+	}
+	vid := victim.SiacoinInputs[0].Parent.ID
+	if _, err := w.GrowFromPool(0, 1+rng.Intn(len(prev2)-1)); err != nil || w.TipID() == oldTip {
+		w.Refresh()
+		return "skip"
+	}
+	el, ok := w.Led.SC[vid]
+	if !ok {
+		w.Refresh()
+		return "skip"
+	}
+	cs := w.Node.CM.TipState()
+	spent := map[types.SiacoinOutputID]bool{}
+	for _, t := range prev2 {
+		for _, in := range t.SiacoinInputs {
+			spent[in.Parent.ID] = true
+		}
+	}
+	var set []types.V2Transaction
+	for _, c := range w.CoinsOf(w.Led, w.Node.CM.Tip().Height+1) {
+		if !spent[c.ID] && c.Value.Cmp(types.Siacoins(3)) >= 0 && len(set) < 1+rng.Intn(2) {
+			set = append(set, w.SpendV2(cs, []Coin{c}, 1, g.Fee(), 0))
+		}
+	}
+	if len(set) == 0 {
+		w.Refresh()
+		return "skip"
+	}
+	set = append(set, w.SpendV2(cs, []Coin{{ID: el.ID, Value: el.SiacoinOutput.Value, Elem: el.Copy()}}, 2, g.Fee(), 0))
+	g.LooseKnown = true
+	g.AddV2(w.TipID(), set, nil, "first-call-pool-conflict", len(set)-1, false)
+	g.LooseKnown = false
+	w.Stats["first-call:add2-conflict"]++
+	return "first-call-add2-conflict"
+}
+
 // FirstCall changes the tip (a block confirming a prefix of the pool, a block with other
 // transactions on the tip, or a fork branch that overtakes it) and then makes ONE query the first
 // pool call after the tip change - before anything else has caused a re-validation - choosing its
@@ -503,6 +615,11 @@ func (g *Gen) FirstCall() string {
 	}
 	oldTip := w.TipID()
 	how := ""
+	if len(prev1)+len(prev2) >= 2 && rng.Chance(1, 3) {
+		if r := g.firstCallConflict(prev1, prev2); r != "" {
+			return r
+		}
+	}
 	switch rng.Intn(4) {
 	case 0, 1: // confirm a proper prefix, so that the rest moves to other positions
 		n1 := rng.Intn(len(prev1) + 1)
@@ -912,6 +1029,37 @@ func (g *Gen) Step() string {
 	case a < 58: // invalid at position k
 		n := 1 + rng.Intn(4)
 		mode := rng.Intn(3)
+		if rng.Chance(1, 3) {
+			// a same-id copy of an already pooled transaction with a broken signature, next to new ones
+			if rng.Bool() && w.V1Allowed() {
+				if known := g.StandaloneV1(); len(known) > 0 {
+					set := g.FreshV1(1+rng.Intn(2), false)
+					k := rng.Intn(len(set) + 1)
+					bad := BreakV1(known[rng.Intn(len(known))])
+					set = append(append(append([]types.Transaction(nil), set[:k]...), bad), set[k:]...)
+					oks := make([]bool, len(set))
+					for i := range oks {
+						oks[i] = i != k
+					}
+					g.AddV1(set, oks, "invalid-copy-of-pooled", k, false)
+					return "invalid-known-v1"
+				}
+			}
+			if w.V2Allowed() {
+				if known := g.StandaloneV2(); len(known) > 0 {
+					set := g.FreshV2(1+rng.Intn(2), false, w.FreeCoins())
+					k := rng.Intn(len(set) + 1)
+					bad := BreakV2(known[rng.Intn(len(known))])
+					set = append(append(append([]types.V2Transaction(nil), set[:k]...), bad), set[k:]...)
+					oks := make([]bool, len(set))
+					for i := range oks {
+						oks[i] = i != k
+					}
+					g.AddV2(tip, set, oks, "invalid-copy-of-pooled", k, false)
+					return "invalid-known-v2"
+				}
+			}
+		}
 		if rng.Bool() && w.V1Allowed() {
 			set := g.FreshV1(n, false)
 			if len(set) == 0 {
